@@ -43,21 +43,21 @@ pub fn run(kind: &str, args: &[i64]) -> String {
             match LocalTimeType::new(a(args, 0) as i32, a(args, 1) != 0, d) {
                 Ok(l) => canon::ltt(&mut o, &l),
                 Err(e) => {
-                    let _ = write!(o, "Err({e:?})");
+                    canon::anyerr(&mut o, e);
                 }
             }
         }
         "ltt_off" => match LocalTimeType::with_ut_offset(a(args, 0) as i32) {
             Ok(l) => canon::ltt(&mut o, &l),
             Err(e) => {
-                let _ = write!(o, "Err({e:?})");
+                canon::anyerr(&mut o, e);
             }
         },
         #[cfg(feature = "tz-alloc")]
         "fixed" => match TimeZone::fixed(a(args, 0) as i32) {
             Ok(z) => canon::zone(&mut o, z.as_ref()),
             Err(e) => {
-                let _ = write!(o, "Err({e:?})");
+                canon::anyerr(&mut o, e);
             }
         },
         "utc_new" => match UtcDateTime::new(a(args, 0) as i32, a(args, 1) as u8, a(args, 2) as u8, a(args, 3) as u8, a(args, 4) as u8, a(args, 5) as u8, a(args, 6) as u32) {
@@ -70,7 +70,7 @@ pub fn run(kind: &str, args: &[i64]) -> String {
                 }
                 let _ = u.project(TimeZoneRef::utc());
             }
-            Err(e) => canon::tzerr(&mut o, &e),
+            Err(e) => canon::anyerr(&mut o, e),
         },
         "dt_new" => {
             let l = match LocalTimeType::with_ut_offset(a(args, 7) as i32) {
@@ -82,37 +82,37 @@ pub fn run(kind: &str, args: &[i64]) -> String {
                     canon::dt(&mut o, &d);
                     let _ = d.project(TimeZoneRef::utc());
                 }
-                Err(e) => canon::tzerr(&mut o, &e),
+                Err(e) => canon::anyerr(&mut o, e),
             }
         }
         "utc_ts" => {
             match UtcDateTime::from_timespec(a(args, 0), a(args, 1) as u32) {
                 Ok(u) => canon::utc(&mut o, &u),
-                Err(e) => canon::tzerr(&mut o, &e),
+                Err(e) => canon::anyerr(&mut o, e),
             }
             let total = a(args, 0) as i128 * 1_000_000_000 + a(args, 1) as i128;
             match UtcDateTime::from_total_nanoseconds(total) {
                 Ok(u) => canon::utc(&mut o, &u),
-                Err(e) => canon::tzerr(&mut o, &e),
+                Err(e) => canon::anyerr(&mut o, e),
             }
         }
         "utc_total" => {
             let total = (a(args, 0) as i128).wrapping_mul(a(args, 1) as i128).wrapping_add(a(args, 2) as i128);
             match UtcDateTime::from_total_nanoseconds(total) {
                 Ok(u) => canon::utc(&mut o, &u),
-                Err(e) => canon::tzerr(&mut o, &e),
+                Err(e) => canon::anyerr(&mut o, e),
             }
             let l = LocalTimeType::with_ut_offset(a(args, 3) as i32).unwrap_or(LocalTimeType::utc());
             match DateTime::from_total_nanoseconds_and_local(total, l) {
                 Ok(d) => canon::dt(&mut o, &d),
-                Err(e) => canon::tzerr(&mut o, &e),
+                Err(e) => canon::anyerr(&mut o, e),
             }
         }
         "dt_ts_local" => {
             let l = LocalTimeType::with_ut_offset(a(args, 2) as i32).unwrap_or(LocalTimeType::utc());
             match DateTime::from_timespec_and_local(a(args, 0), a(args, 1) as u32, l) {
                 Ok(d) => canon::dt(&mut o, &d),
-                Err(e) => canon::tzerr(&mut o, &e),
+                Err(e) => canon::anyerr(&mut o, e),
             }
         }
         "mwd" => {
@@ -139,14 +139,14 @@ pub fn run(kind: &str, args: &[i64]) -> String {
                             for t in args.iter().skip(12) {
                                 match z.find_local_time_type(*t) {
                                     Ok(l) => canon::ltt(&mut o, l),
-                                    Err(e) => canon::tzerr(&mut o, &e),
+                                    Err(e) => canon::anyerr(&mut o, e),
                                 }
                                 if let Ok(d) = DateTime::from_timespec(*t, 0, z) {
                                     match kfound(d.year(), d.month(), d.month_day(), d.hour(), d.minute(), d.second(), z) {
                                         Ok(l) => {
                                             let _ = write!(o, "k={}", l);
                                         }
-                                        Err(e) => canon::tzerr(&mut o, &e),
+                                        Err(e) => canon::anyerr(&mut o, e),
                                     }
                                 }
                             }
@@ -162,7 +162,7 @@ pub fn run(kind: &str, args: &[i64]) -> String {
                         }
                     }
                     Err(e) => {
-                        let _ = write!(o, "Err({e:?})");
+                        canon::anyerr(&mut o, e);
                     }
                 },
                 _ => o.push_str("Err(parts)"),
@@ -201,7 +201,7 @@ pub fn run(kind: &str, args: &[i64]) -> String {
                     for t in args.iter().skip(p) {
                         match z.find_local_time_type(*t) {
                             Ok(l) => canon::ltt(&mut o, l),
-                            Err(e) => canon::tzerr(&mut o, &e),
+                            Err(e) => canon::anyerr(&mut o, e),
                         }
                         match DateTime::from_timespec(*t, 0, z) {
                             Ok(d) => {
@@ -210,14 +210,14 @@ pub fn run(kind: &str, args: &[i64]) -> String {
                                     Ok(l) => {
                                         let _ = write!(o, "k={}", l);
                                     }
-                                    Err(e) => canon::tzerr(&mut o, &e),
+                                    Err(e) => canon::anyerr(&mut o, e),
                                 }
                             }
-                            Err(e) => canon::tzerr(&mut o, &e),
+                            Err(e) => canon::anyerr(&mut o, e),
                         }
                     }
                 }
-                Err(e) => canon::tzerr(&mut o, &e),
+                Err(e) => canon::anyerr(&mut o, e),
             }
         }
         "tzref_many" => {
@@ -239,20 +239,20 @@ pub fn run(kind: &str, args: &[i64]) -> String {
                             let tt = x.unix_leap_time().saturating_add(dt);
                             match z.find_local_time_type(tt) {
                                 Ok(l) => canon::ltt(&mut o, l),
-                                Err(e) => canon::tzerr(&mut o, &e),
+                                Err(e) => canon::anyerr(&mut o, e),
                             }
                             if let Ok(d) = DateTime::from_timespec(tt, 0, z) {
                                 match kfound(d.year(), d.month(), d.month_day(), d.hour(), d.minute(), d.second(), z) {
                                     Ok(k) => {
                                         let _ = write!(o, "k={k}");
                                     }
-                                    Err(e) => canon::tzerr(&mut o, &e),
+                                    Err(e) => canon::anyerr(&mut o, e),
                                 }
                             }
                         }
                     }
                 }
-                Err(e) => canon::tzerr(&mut o, &e),
+                Err(e) => canon::anyerr(&mut o, e),
             }
         }
         "project_x" => {
@@ -265,11 +265,11 @@ pub fn run(kind: &str, args: &[i64]) -> String {
                     if let Ok(z2) = TimeZoneRef::new(&[], &l2, &[], &None) {
                         match d.project(z2) {
                             Ok(p) => canon::dt(&mut o, &p),
-                            Err(e) => canon::tzerr(&mut o, &e),
+                            Err(e) => canon::anyerr(&mut o, e),
                         }
                     }
                 }
-                Err(e) => canon::tzerr(&mut o, &e),
+                Err(e) => canon::anyerr(&mut o, e),
             }
         }
         #[cfg(feature = "tz-alloc")]
